@@ -27,6 +27,10 @@ type Clause struct {
 	File  string
 	Line  int
 	Gen   string // name of the generated overlay function
+	// Broken: the clause no longer applies to the code (its loop is gone, a local it names was
+	// removed, it no longer type-checks).  Loop clauses are then dropped (their obligations
+	// vanish and what depended on them fails); any other clause makes the function undecidable.
+	Broken string
 	// filled in phase 1 for loop clauses: the free local identifiers (name, type string)
 	Locals []LocalRef
 }
